@@ -365,9 +365,15 @@ func csvFileScenario(r *Run) {
 	execChunks := drawChunks(hdr)
 	previewChunks := drawChunks(hdr)
 	attrs := map[string]string{"source": ext}
+	// header=>false: the first line is a row too, the columns are called column_0, column_1, ...
+	noHeader := hdr.Chance(1, 4)
 	body := t.Block(96)
 	var sb strings.Builder
-	sb.WriteString("id" + string(sep) + "name" + string(sep) + "qty\n")
+	if !noHeader {
+		sb.WriteString("id" + string(sep) + "name" + string(sep) + "qty\n")
+	} else {
+		attrs["header"] = "false"
+	}
 	type row struct {
 		id   int64
 		name string
@@ -400,7 +406,7 @@ func csvFileScenario(r *Run) {
 		return
 	}
 	r.Log("%s file: %d rows, buffer=%d preview chunks=%v exec chunks=%v", ext, nRows, bufSize, previewChunks, execChunks)
-	r.Shape(ext, nRows, bufSize, fmt.Sprint(previewChunks), fmt.Sprint(execChunks))
+	r.Shape(ext, nRows, bufSize, fmt.Sprint(previewChunks), fmt.Sprint(execChunks), noHeader)
 	r.Sched(sb.String())
 	r.NonTrivial(nRows >= 2)
 	// either the datasource alone, or SELECT <some columns> through the planner with the optimiser on
@@ -410,7 +416,19 @@ func csvFileScenario(r *Run) {
 	var got [][]octosql.Value
 	var cerr, rerr error
 	col := map[string]int{}
-	if sel == nil {
+	if noHeader {
+		var schema physical.Schema
+		got, schema, cerr, rerr = runFileSource(r, csvds.Creator(rune(sep)), path, map[string]string{"header": "false"}, bufSize, previewChunks, execChunks)
+		if cerr == nil && nRows > 0 {
+			for i, want := range []string{"column_0", "column_1", "column_2"} {
+				if i >= len(schema.Fields) || schema.Fields[i].Name != want {
+					r.Violate("C23", "schema_error", attrs, "header=>false: column %d of the schema is not called %s: %v", i, want, schema.Fields)
+					return
+				}
+			}
+		}
+		col = map[string]int{"id": 0, "name": 1, "qty": 2}
+	} else if sel == nil {
 		var schema physical.Schema
 		got, schema, cerr, rerr = runFileSource(r, csvds.Creator(rune(sep)), path, map[string]string{}, bufSize, previewChunks, execChunks)
 		for i, f := range schema.Fields {
